@@ -85,19 +85,32 @@ def build_harness(profile="chk", features=None):
     cmd = ["cargo", "build", "--offline", "--profile", profile]
     tdir = "target"
     if features is not None:
-        cmd += ["--no-default-features", "--features", features, "--target-dir", "target-" + features]
+        cmd += ["--no-default-features", "--features", features]
+        if REPO == "/repo":
+            cmd += ["--target-dir", "target-" + features]
         tdir = "target-" + features
     t0 = time.time()
-    r = subprocess.run(cmd, cwd=d, env=env, capture_output=True, text=True)
-    if r.returncode != 0:
-        res = (None, r.stderr[-4000:])
-    elif REPO != "/repo" and features is None:
-        # copy the binary out of the shared scratch target so that a later scratch build cannot replace it under a running check
-        dst = os.path.join(d, f"tzverif-{profile}")
-        shutil.copy(os.path.join(BASE_OUT, "target-scratch", profile, "tzverif"), dst)
-        res = (dst, "")
-    else:
-        res = (os.path.join(d, tdir, profile, "tzverif"), "")
+    lock = None
+    if REPO != "/repo":
+        # scratch copies share one target directory: build and copy-out are one critical section across processes
+        import fcntl
+        os.makedirs(BASE_OUT, exist_ok=True)
+        lock = open(os.path.join(BASE_OUT, "target-scratch.lock"), "w")
+        fcntl.flock(lock, fcntl.LOCK_EX)
+    try:
+        r = subprocess.run(cmd, cwd=d, env=env, capture_output=True, text=True)
+        if r.returncode != 0:
+            res = (None, r.stderr[-4000:])
+        elif REPO != "/repo":
+            # copy the binary out of the shared scratch target so that a later scratch build cannot replace it under a running check
+            dst = os.path.join(d, f"tzverif-{profile}-{features or 'default'}")
+            shutil.copy(os.path.join(BASE_OUT, "target-scratch", profile, "tzverif"), dst)
+            res = (dst, "")
+        else:
+            res = (os.path.join(d, tdir, profile, "tzverif"), "")
+    finally:
+        if lock:
+            lock.close()
     log(f"[build] {' '.join(cmd)} -> {r.returncode} in {time.time()-t0:.1f}s")
     _built[key] = res
     return res
@@ -136,6 +149,22 @@ def run_mc(module, consts, invariants=("Inv",), workers=8, timeout=1200, tag=Non
     VEC lines printed by the model are written to vec_out (ndjson). Any invariant violation of a *spec-level*
     model is a tool error (the models never look at the code)."""
     tag = tag or module
+    # Optional cache of the vectors of a bounded model (they depend on the specification only). Used by the mutation-analysis
+    # tooling (VERIF_MC_CACHE=1); registered checks always run TLC live.
+    cache_key = None
+    if os.environ.get("VERIF_MC_CACHE") == "1":
+        h = hashlib.sha1()
+        for fn in sorted(os.listdir(SPEC)):
+            if fn.endswith(".tla"):
+                h.update(open(os.path.join(SPEC, fn), "rb").read())
+        h.update(json.dumps([module, {k: str(v) for k, v in consts.items()}, list(invariants), extra_cfg], sort_keys=True).encode())
+        cache_key = os.path.join(VERIF, "cache", h.hexdigest())
+        if os.path.exists(cache_key + ".json"):
+            info = json.load(open(cache_key + ".json"))
+            if vec_out:
+                shutil.copy(cache_key + ".vec", vec_out)
+            log(f"[mc] {module}: cached ({info['distinct']} distinct states, {info['vectors']} vectors)")
+            return info
     work = os.path.join(OUT, "mc-" + tag)
     shutil.rmtree(work, ignore_errors=True)
     os.makedirs(work)
@@ -184,7 +213,15 @@ def run_mc(module, consts, invariants=("Inv",), workers=8, timeout=1200, tag=Non
         raise ToolError(f"TLC on {module} failed (rc={p.returncode}):\n" + "\n".join(err[:40]))
     dt = time.time() - t0
     log(f"[mc] {module} {consts}: {states} states, {distinct} distinct, {nvec} vectors, {dt:.1f}s")
-    return dict(module=module, states=states, distinct=distinct, vectors=nvec, seconds=round(dt, 1), consts={k: str(v) for k, v in consts.items()})
+    info = dict(module=module, states=states, distinct=distinct, vectors=nvec, seconds=round(dt, 1), consts={k: str(v) for k, v in consts.items()})
+    if cache_key:
+        os.makedirs(os.path.dirname(cache_key), exist_ok=True)
+        if vec_out:
+            shutil.copy(vec_out, cache_key + ".vec")
+        else:
+            open(cache_key + ".vec", "w").close()
+        json.dump(info, open(cache_key + ".json", "w"))
+    return info
 
 
 def run_apalache(module, inv, timeout=600):
